@@ -952,6 +952,20 @@ fn branch_cases() -> Vec<(&'static str, &'static str)> {
         ("i252+253+254:1", "Ap:60,Kp:71,Z1,Q,P,Ap:60,Kp:72,Z2,F2:3,Q,X1:254,P,Ap:60,Kp:73,Z3,Q"),
         ("i254:1", "Ap:60,Kp:71,Z1,X1:254,P,Ap:60,Kp:72,Z2,Q"),
         ("i6+100+200:0", "L6:3,F100:4,B200:5,G6:2,I100:3,Q,X6:100,Q,L200:8"),
+        // a power loss INSIDE an operation, and the history goes on: the fabric key is gone, the resumption cache
+        // still has the records of that fabric; the index is handed out again, the node restarts once more
+        // (before / after the background flush; with the session established anew; at a high index)
+        ("21", "H:2:71,J,X1:2~1,P,Ap:60,Kp:77,Z2,Q"),
+        ("21", "H:2:71,H:1:70,J,X1:2~1,P,Ap:60,Kp:77,Z2,J,Q,H:2:71,J,Q"),
+        ("21", "H:2:71,J,X1:2~0,L2:3,X1:2~2,Q,X1:2~9,P,Ap:60,Kp:77,Z2,H:2:71,Q"),
+        ("21", "B2:5,D2:3,s2:4,H:2:71,J,X1:2~2,Q,X1:2~3,P,Ap:60,Kp:77,Z2,B2:6,Q"),
+        ("i7:1", "Ap:60,Kp:71,Z8,H:8:70,H:7:71,J,X7:8~1,P,Ap:60,Kp:72,Z8,Q,H:8:70,Q"),
+        // ... inside the rollback of a fabric that was never committed, inside CommissioningComplete, inside a factory reset
+        ("11", "Ap:60,Kp:77,H:2:71,J,E~1,P,Ap:60,Kp:78,Z2,Q"),
+        ("11", "Ap:60,Kp:77,H:2:71,J,Q,P,Ap:60,Kp:78,Z2,Q"),
+        ("11", "Ap:60,Kp:77,Wp:9,H:2:71,Z2~1,L2:4,J,Q"),
+        ("21", "H:2:71,H:1:70,J,L1:4,!~1,Q"),
+        ("21", "L1:5~0,L1:6~1,B1:4~1,Q"),
     ]
 }
 
@@ -997,7 +1011,12 @@ fn generate(tier: &str, seed: u64) -> (Vec<String>, String) {
                 23..=25 => {
                     let g = if rng.chance(4, 5) && !fabs.is_empty() { *rng.pick(&fabs) } else { 1 + rng.below(5) };
                     fabs.retain(|x| *x != g);
-                    format!("X{}:{}", f, g)
+                    if rng.chance(1, 4) {
+                        // cut by a power loss after some of its key-value operations
+                        format!("X{}:{}~{}", f, g, rng.below(4))
+                    } else {
+                        format!("X{}:{}", f, g)
+                    }
                 }
                 26..=28 => format!("H:{}:{}", f, 70 + rng.below(4)),
                 29..=30 => "J".to_string(),
@@ -1158,6 +1177,88 @@ fn generate(tier: &str, seed: u64) -> (Vec<String>, String) {
         v.push("Q".into());
         lens += v.len();
         let init = if start.len() == 1 { format!("i{}:1", start[0]) } else { "21".to_string() };
+        cases.push(format!("S {} {} {}", nid(), init, v.join(",")));
+    }
+    // the resumption cache across removals cut by a power loss: records made and flushed, the fabric removed with
+    // the power lost after j of the key-value operations of the removal, the index handed out again, a second restart
+    let n_cutres = if thorough { 500 } else { 40 };
+    for _ in 0..n_cutres {
+        let start: Vec<u64> = match rng.below(4) {
+            0 => vec![rng.range(3, 250)],
+            1 => vec![1, rng.range(3, 250)],
+            _ => vec![1, 2],
+        };
+        let mut table: Vec<u64> = start.clone();
+        let mut v: Vec<String> = Vec::new();
+        if table.len() < 2 || rng.chance(1, 3) {
+            let next = table.iter().max().unwrap() + 1;
+            v.extend(["P".to_string(), "Ap:60".to_string(), format!("Kp:{}", 70 + rng.below(9)), format!("Z{}", next)]);
+            table.push(next);
+        }
+        let rounds = rng.range(1, 4);
+        for r in 0..rounds {
+            for _ in 0..rng.range(1, 4) {
+                v.push(format!("H:{}:{}", *rng.pick(&table), 70 + rng.below(3)));
+            }
+            if rng.chance(1, 3) {
+                v.push(format!("{}{}:{}", *rng.pick(&["B", "D", "s", "I"]), *rng.pick(&table), 1 + rng.below(9)));
+            }
+            if rng.chance(4, 5) {
+                v.push("J".into());
+            }
+            if rng.chance(1, 4) {
+                v.push(format!("H:{}:{}", *rng.pick(&table), 73));
+            }
+            // mostly the newest fabric: its index is the one handed out next
+            let g = if rng.chance(3, 4) { *table.iter().max().unwrap() } else { *rng.pick(&table) };
+            let by = if table.len() > 1 && rng.chance(3, 4) { *table.iter().find(|x| **x != g).unwrap() } else { g };
+            let whole = rng.chance(1, 5);
+            if whole {
+                v.push(format!("X{}:{}", by, g));
+            } else {
+                v.push(format!("X{}:{}~{}", by, g, rng.below(4)));
+            }
+            // a cut before the first operation removed nothing
+            let gone = whole || !v.last().unwrap().ends_with("~0");
+            if gone {
+                table.retain(|x| *x != g);
+            }
+            if rng.chance(1, 4) {
+                v.push("Q".into());
+            }
+            if table.is_empty() || gone {
+                let mx = table.iter().max().copied().unwrap_or(0);
+                let next = if mx < 254 { mx + 1 } else { (1..255).find(|i| !table.contains(i)).unwrap() };
+                v.extend(["P".to_string(), "Ap:60".to_string(), format!("Kp:{}", 80 + r)]);
+                match rng.below(8) {
+                    0 => v.push("E".into()),
+                    1 => v.push(format!("E~{}", rng.below(3))),
+                    2 => {
+                        v.push(format!("Z{}~{}", next, rng.below(3)));
+                        // whether the fabric made it depends on the cut: the next rounds only steer
+                    }
+                    _ => {
+                        v.push(format!("Z{}", next));
+                        table.push(next);
+                    }
+                }
+                if table.is_empty() {
+                    break;
+                }
+            }
+            if rng.chance(1, 3) {
+                v.push(format!("H:{}:{}", *rng.pick(&table), 70 + rng.below(3)));
+            }
+            if rng.chance(1, 2) {
+                v.push("J".into());
+            }
+            v.push("Q".into());
+        }
+        lens += v.len();
+        let init = match start.as_slice() {
+            [1, 2] => "21".to_string(),
+            l => format!("i{}:1", l.iter().map(|x| x.to_string()).collect::<Vec<_>>().join("+")),
+        };
         cases.push(format!("S {} {} {}", nid(), init, v.join(",")));
     }
     // round trips
